@@ -51,6 +51,8 @@ def run(ctx):
     ctx.rule("C09.8", "sections, AA and RCODE per ResolvedRecord variant; SERVFAIL only for an empty NOERROR reply")
     ctx.rule("C09.9", "listen loops have no exit edge; process::exit only during start-up")
     ctx.rule("C09.11", "read_tcp_bytes: an error carries id = the first two body octets (big-endian) whenever at least two were read; id = None only under a fact implying fewer than two (or when the length prefix itself could not be read)")
+    ctx.rule("C09.12", "what the UDP listener hands to the request handler is exactly the datagram received: the receive buffer up to the count recv_from reported (not the whole buffer, whose tail holds octets of earlier datagrams)")
+    ctx.rule("C09.13", "no datagram can hang the decoder the listener runs it through (C03.2 - C03.4, decided here as well): a request that spins never gets its FORMERR and occupies a worker for good")
     ctx.rule("C09.10", "records placed in the answer section come from an answer (`rrs` of an answering result), not from a referral")
     ctx.decline("live socket behaviour, 'exactly one reply' under all interleavings; panic-freedom of the request path is decided under C03/C08/C17")
 
@@ -510,6 +512,24 @@ def run(ctx):
         again = [b for b in reads if b in later]
         ctx.check(bool(reads) and not direct and not again, "C09.6", "read_tcp_bytes:eof-leaves-loop", "after read() returned 0 with the message incomplete, the stream is not read again",
                   "after EOF the loop reads again (spins on a closed connection, no reply is ever produced)", rt.loc(a))
+
+    # ---------------------------------------------------------------- C09.13
+    from ..core import RuleAlias
+    if not isinstance(ctx, RuleAlias):
+        from . import C03
+        C03.run(RuleAlias(ctx, {"C03.2": "C09.13", "C03.3": "C09.13", "C03.4": "C09.13"}))
+
+    # ---------------------------------------------------------------- C09.12
+    lu = prog.body_of("resolved::listen_udp_task")
+    lur = A.Resolver(lu)
+    froms = [(b, lur.call_expr(t, b)) for b, t in lu.calls() if "BytesMut" in (t.get("resolved") or t.get("callee") or "") and (t.get("resolved") or t.get("callee") or "").endswith("::from")]
+    ctx.floor("C09.12", "datagram copies in listen_udp_task", len(froms), 1)
+    for b, e in froms:
+        ss = A.subslice(e[2][0])
+        ok12 = ss is not None and (ss[1] is None or A.peel(ss[1])[2] == 0) and ss[2] is not None and \
+            any(x[0] == "await" or (x[0] == "call" and x[1].endswith("recv_from")) for x in A.walk(ss[2])) and A.last_field(A.peel(ss[2])) == "0"
+        ctx.check(ok12, "C09.12", "listen_udp_task:datagram-is-received-octets", "handler gets buf[..size], size = the count recv_from returned",
+                  "the handler is given %s" % A.show(e[2][0])[:100], lu.loc(b))
 
     # ---------------------------------------------------------------- C09.11
     def len_upper(fc):
